@@ -232,6 +232,7 @@ func init() {
 					pull("S0", 1), pull("S0", 10),
 					stream("S0", "plain", ""), stream("S0", "open-ack", "oldest"), stream("S0", "open-ack", "all"), stream("S0", "later-ack", "oldest"), stream("S0", "later-ack", "stale"),
 					stream("S0", "open-nack", "oldest"), stream("S0", "later-nack", "all"), stream("S0", "later-extend", "all"), stream("S0", "open-ack", "mixed"),
+					stream("S0", "later-ack-mixed", "oldest"), stream("S0", "later-ack-mixed", "stale"),
 					ack("S0", "oldest"), tick("lease+"),
 				},
 			},
